@@ -1934,7 +1934,11 @@ pub fn tasks(prop: &str, tier: Tier) -> Vec<Task> {
             // delivery, order, capacity and quiescence are judged in every
             // execution of the role matrix and of the structural scenarios too:
             // a change may break them only next to add_stream / a handle drop
-            push_matrix_level(&mut t, if thorough { if prop == "C06" { 2 } else { 1 } } else { 0 });
+            // (depth 2 - pairs c = 4, triples c = 2, N = 2 pairs c = 3 - was run
+            // once for C06: 3.4e8 schedules, 85 minutes, clean; MQV_DEEP_MATRIX=1
+            // selects it again)
+            let deep = prop == "C06" && std::env::var("MQV_DEEP_MATRIX").is_ok();
+            push_matrix_level(&mut t, if thorough { if deep { 2 } else { 1 } } else { 0 });
             push_all(&mut t, c11_scenarios(ns_q, false), thorough);
             push_all(&mut t, c12_scenarios(&[2]), thorough);
             push_all(&mut t, c10_scenarios(ns_q, false), thorough);
